@@ -65,6 +65,8 @@ TECHNIQUE = "Lean 4 invariant proof over an executable model of remove_vertices/
 
 
 def tok(x):
+    if isinstance(x, (str, bytes)):      # text data: the entry itself is the token
+        return x.decode() if isinstance(x, bytes) else str(x)
     x = float(x)
     return "nan" if math.isnan(x) else repr(x)
 
@@ -88,7 +90,13 @@ def gen_case(rng):
                 cells.append(c)
     vnames = rng.sample(["va", "vb", "vc"], rng.randrange(0, 3))
     cnames = rng.sample(["ca", "cb"], rng.randrange(0, 3)) if k else []
+    # text data ride along (never assigned to, only trimmed and copied with the geometry): data kinds other than float take
+    # other paths in the writer; created before or after the float data (the order of the children is the order of the edits)
+    tnames = [t for t in (["tv", "tc"] if k else ["tv"]) if rng.random() < 0.3]
+    text_first = rng.random() < 0.5
     ops = []
+    if tnames and k and rng.random() < 0.3:
+        ops.append(["rmCells", list(range(6))])      # every cell at once (indices beyond the last are refused by the model too)
     for _ in range(rng.randrange(1, 7)):
         r = rng.random()
         if r < 0.45:
@@ -112,7 +120,10 @@ def gen_case(rng):
             ops.append(["readLazy"])          # read the lazily derived arrays (parts of a curve): they are cached on the object
         else:
             ops.append(["clearCache"])        # drop the cached arrays: the next read rebuilds them from the file / the caches left
-    return {"cls": cls, "n": n, "cells": cells, "vnames": vnames, "cnames": cnames, "ops": ops}
+    if ops and ops[0][0] == "rmCells" and ops[0][1] == list(range(6)):
+        ops[0][1] = list(range(len(cells)))
+    return {"cls": cls, "n": n, "cells": cells, "vnames": vnames, "cnames": cnames, "tnames": tnames, "text_first": text_first,
+            "ops": ops}
 
 
 def gen_idx(rng):
@@ -201,6 +212,22 @@ def run_case(ctx: Ctx, case, path):
         kw["cells"] = np.array(case["cells"], dtype="uint32")
     obj = getattr(objects, case["cls"]).create(ws, **kw)
     truth_v, truth_c = {}, {}
+
+    def add_text():
+        for nm in case.get("tnames", []):
+            if nm == "tv":
+                vals = np.array([f"t{i}" for i in range(n)])
+                obj.add_data({nm: {"values": vals, "association": "VERTEX", "type": "text"}})
+                truth_v[nm] = {vid: str(v) for vid, v in enumerate(vals)}
+            elif case["cells"] is not None:
+                vals = np.array([f"c{i}" for i in range(len(case["cells"]))])
+                obj.add_data({nm: {"values": vals, "association": "CELL", "type": "text"}})
+                truth_c[nm] = {}
+                for c, v in zip(case["cells"], vals):
+                    truth_c[nm].setdefault(tuple(c), str(v))
+
+    if case.get("text_first"):
+        add_text()
     for i, nm in enumerate(case["vnames"]):
         vals = np.arange(n, dtype=float) + 100.0 * (i + 1)
         obj.add_data({nm: {"values": vals, "association": "VERTEX"}})
@@ -213,6 +240,8 @@ def run_case(ctx: Ctx, case, path):
             truth_c[nm] = {}
             for c, v in zip(case["cells"], vals):
                 truth_c[nm].setdefault(tuple(c), tok(v))
+    if not case.get("text_first"):
+        add_text()
     s0 = snapshot(obj)
     lines.append({"m": "geom", "op": "init", "verts": s0["verts"], "cells": s0["cells"],
                   "vdata": [{"n": k, "v": v} for k, v in s0["vdata"].items()],
@@ -266,6 +295,15 @@ def run_case(ctx: Ctx, case, path):
                 except Exception as e:  # noqa: BLE001
                     status = ERR.get(type(e).__name__, "other:" + type(e).__name__)
                     csnap = before
+                    if len(mask) == nv:
+                        # a mask of the right length selects a copy (mc_aligned ... are stated for every such mask): the
+                        # copy raising half-way leaves an object without its data in the workspace
+                        left = [o for o in ws.objects if o.uid != obj.uid]
+                        failures.append((f"masked copy with a mask of the right length raised {type(e).__name__}: {str(e)[:80]}; "
+                                         f"{len(left)} half-made object(s) left in the workspace {tag}",
+                                         "C07:copy-mask:raises:" + type(e).__name__))
+                        for o in left:
+                            ws.remove_entity(o)
                 if "read_error" in csnap:
                     lines.pop()
                     failures += oracle(csnap, truth_v, truth_c, tag + " (the copy)")
